@@ -189,12 +189,14 @@ class FileUnicodeMap(UnicodeMap):
         assert isinstance(cid, int), str(type(cid))
         if isinstance(code, PSLiteral):
             # Interpret as an Adobe glyph name.
-            assert isinstance(code.name, str)
+            if not isinstance(code.name, str):
+                # a name that is not text cannot be in the glyph list
+                return
             unichr = name2unicode(code.name)
         elif isinstance(code, bytes):
             # Interpret as UTF-16BE.
             unichr = code.decode("UTF-16BE", "ignore")
-        elif isinstance(code, int):
+        elif isinstance(code, int) and 0 <= code <= 0x10FFFF:
             unichr = chr(code)
         else:
             raise PDFTypeError(code)
@@ -208,6 +210,9 @@ class FileUnicodeMap(UnicodeMap):
 class PyCMap(CMap):
     def __init__(self, name: str, module: Any) -> None:
         super().__init__(CMapName=name)
+        if not hasattr(module, "CODE2CID"):
+            # e.g. one of the bundled to-unicode-* tables asked for as a CMap
+            raise CMapDB.CMapNotFound(name)
         self.code2cid = module.CODE2CID
         if module.IS_VERTICAL:
             self.attrs["WMode"] = 1
@@ -454,8 +459,9 @@ class CMapParser(PSStackParser[PSKeyword]):
                         )
                     for cid, unicode_value in zip(range(start, end + 1), code):
                         self.cmap.add_cid2unichr(cid, unicode_value)
+                elif not isinstance(code, bytes):
+                    self._warn_once("The destination of a bfrange is not a string or an array.")
                 else:
-                    assert isinstance(code, bytes)
                     var = code[-4:]
                     base = nunpack(var)
                     prefix = code[:-4]
